@@ -50,13 +50,15 @@ checks = {
  "C04": ("E-ISO", "exploration", "runtime monitoring: isolated child processes run (state, call, size) cases in overflow-checked and unchecked builds; state tuple + free-list snapshot compared around failing calls; child exit status observed",
          "Every allocation flavour is called with boundary-dense sizes up to u32::MAX on freshly built arenas in five states; a failing call must leave allocated/discarded/remaining/free list untouched, a succeeding one must satisfy the C01/C03 obligations; panics are caught and reported, a signal kills only the child and is attributed to the printed case; thorough adds 4 GiB arenas whose cursor sits next to u32::MAX and an ASan pass.",
          "Sampled configurations; sizes are boundary sets plus random values, not all 2^32.", "§3 E-ISO, §4 C04"),
+ "C09": ("E-FILE", "exploration", "runtime monitoring: file mutation sweep with a reference identification rule + before/after file comparison; read-only call matrix in child processes",
+         "Valid arena files are mutated (identification bytes x 256 values, truncation to every short length, arbitrary bytes) and opened with every variant x expectation; the verdict is compared with a small reference of the identification rule and the file bytes are compared after every refused, read-only or private open. Every safe mutator (+clear, truncate) is called on read-only arenas of both flavours and both read-only variants: ReadOnly or the documented panic, state and file unchanged, no crash.",
+         "The reference rule is the harness' reading of the statement; remove_on_drop belongs to C13.", "§4 C09"),
 }
 
 not_applicable = {
  "C02": "check under construction (E-SCHED schedule fuzzer); not yet claimed",
  "C06": "check under construction (crash-point sweep); not yet claimed",
  "C07": "check under construction (bounded-progress monitor); not yet claimed",
- "C09": "check under construction (file mutation matrix); not yet claimed",
  "C12": "check under construction (vector-clock monitor + TSan/Miri); not yet claimed",
 }
 
@@ -78,6 +80,7 @@ def main():
         {"name": "E-READ", "path": "harness/src/readers.rs", "serves_properties": ["C15"], "kind_free_text": "reader sweep against a reference decode"},
         {"name": "E-CKSUM", "path": "harness/src/readers.rs", "serves_properties": ["C19"], "kind_free_text": "checksum sweep with two checksummers"},
         {"name": "E-ISO", "path": "harness/src/iso.rs", "serves_properties": ["C04"], "kind_free_text": "isolated case runner (child process per shard, AT markers, catch_unwind, exit-status classification)"},
+        {"name": "E-FILE", "path": "harness/src/files.rs", "serves_properties": ["C09"], "kind_free_text": "file mutation sweep + read-only call matrix"},
       ],
       "checks": [],
       "not_applicable": [{"property_id":k,"reason":v} for k,v in sorted(not_applicable.items()) if k not in checks],
